@@ -389,9 +389,9 @@ Qed.
 
 (* the two hypotheses on the simplification component *)
 Hypothesis simp_sound : forall FI M f, cvalid FI M (simp_classic f) <-> cvalid FI M f.
-Hypothesis simp_roles : forall ins p m D,
+Hypothesis simp_roles : forall ins outs p m D,
   completion (rp_theory m (tau_star p)) ins = Some D ->
-  forall f, In f D -> head_predicate (simp_classic f) = head_predicate f.
+  forall f, In f (D ++ missing_output_definitions outs D) -> head_predicate (simp_classic f) = head_predicate f.
 
 Lemma annot_map_sim a : annot_sim (annot_map simp_classic a) a.
 Proof. split; [reflexivity|]. split; [reflexivity|]. intros FI M. apply simp_sound. Qed.
@@ -404,15 +404,16 @@ Lemma translate_sim t t' p th th' :
   Forall2 annot_sim (control_translate (task_public t) th) (control_translate (task_public t') th').
 Proof.
   intros Eu. unfold theory_translate, task_m, task_public. rewrite <- Eu.
-  destruct (completion _ _) as [D|] eqn:HD; [|discriminate]. intros [= <-] [= <-].
-  pose proof (simp_roles _ _ _ _ HD) as Hr.
+  destruct (completion _ _) as [D|] eqn:HD; [|discriminate]. cbv zeta. intros [= <-] [= <-].
+  pose proof (simp_roles _ (ug_output_predicates (et_user_guide t)) _ _ _ HD) as Hr.
+  set (D' := D ++ missing_output_definitions (ug_output_predicates (et_user_guide t)) D) in *.
   unfold control_translate.
   destruct (et_simplify t), (et_simplify t'); try apply annot_sim_refl_list.
-  - rewrite (control_translate_from_map simp_classic _ D Hr).
-    rewrite <- (map_id (control_translate_from _ 0 D)) at 2.
+  - rewrite (control_translate_from_map simp_classic _ D' Hr).
+    rewrite <- (map_id (control_translate_from _ 0 D')) at 2.
     apply Forall2_map2. intros a _. apply annot_map_sim.
-  - rewrite (control_translate_from_map simp_classic _ D Hr).
-    rewrite <- (map_id (control_translate_from _ 0 D)) at 1.
+  - rewrite (control_translate_from_map simp_classic _ D' Hr).
+    rewrite <- (map_id (control_translate_from _ 0 D')) at 1.
     apply Forall2_map2. intros a _. apply annot_sim_sym, annot_map_sim.
 Qed.
 
